@@ -39,6 +39,8 @@ CURATED = [
     ("raw", "Prefixed(Int64sb, GreedyBytes)"), ("raw", "Prefixed(Int64ub, GreedyBytes)"), ("raw", "Struct('n'/Int64ul, 'd'/Bytes(this.n))"),
     ("raw", "Struct('n'/Int64ub, 'd'/FixedSized(this.n, GreedyBytes))"), ("raw", "Struct('n'/Int64ub, Seek(this.n), 'b'/Byte)"), ("raw", "Struct('n'/Int64ub, 'p'/Pointer(this.n, Byte))"),
     ("raw", "Struct('n'/Int64ub, 'a'/Array(this.n, Pass))") if False else ("raw", "Struct('n'/Int64ub, 'd'/Padded(this.n, Byte))"), ("raw", "Prefixed(VarInt, GreedyRange(Int16ub))"), ("raw", "PrefixedArray(Int32sb, Byte)"), ("raw", "PrefixedArray(VarInt, VarInt)"),
+    ("raw", "Struct('g'/Byte, 'r'/ProcessRotateLeft(3, this.g, GreedyBytes))"), ("raw", "Struct('a'/Int8sb, 'g'/Int8sb, 'r'/ProcessRotateLeft(this.a, this.g, Bytes(2)))"),
+    ("raw", "Struct('k'/Byte, 'x'/ProcessXor(this.k, Bytes(this.k & 3)))"), ("raw", "Struct('m'/Int8sb, 'a'/Aligned(this.m, Byte))"), ("raw", "Struct('n'/Int8sb, 'p'/Padded(this.n, Byte))"),
     ("raw", "PrefixedArray(Int64ub, Byte)"), ("raw", "Struct('n'/Int64ub, 'a'/Array(this.n, Byte))"), ("raw", "Struct('n'/Int64sl, 'a'/Array(this.n, Int16ub))"),
     ("raw", "Struct('n'/Int64ub, 'a'/LazyArray(this.n, Byte))"), ("raw", "Struct('n'/BytesInteger(16), 'a'/Array(this.n, Byte))"), ("raw", "Struct('n'/Int64ub, 'a'/Array(this.n, Byte, discard=True))"),
     ("raw", "Struct('o'/Int8sb, 'p'/Pointer(this.o, Byte))"), ("raw", "Struct('o'/Int8ub, 'p'/Pointer(this.o, Int16ub), 'q'/Byte)"), ("raw", "Struct('o'/Int8sb, Seek(this.o), 'b'/Byte)"),
@@ -68,6 +70,7 @@ FAULT_TARGETS = [
     "Union(0, 'a'/Int16ub, 'b'/Byte)", "Select(Int16ub, Byte)", "Optional(Int16ub)", "RawCopy(Int16ub)", "Struct('r'/RawCopy(Byte), 'c'/Checksum(Bytes(1), lambda d: d, this.r.data))",
     "OffsettedEnd(-1, GreedyBytes)", "Struct(Seek(1), 'b'/Byte)", "ByteSwapped(Int16ub)", "BitsSwapped(GreedyBytes)", "Bitwise(Struct('a'/Nibble, 'b'/Nibble))", "Bitwise(GreedyRange(Octet))",
     "ProcessXor(5, GreedyBytes)", "ProcessRotateLeft(1, 1, GreedyBytes)", "Lazy(Int16ub)", "LazyStruct('a'/Byte, 'b'/Int16ub)", "LazyArray(2, Byte)",
+    "Struct('h'/Bytes(2), 'p'/Prefixed(Byte, Struct('t'/Tell, 'g'/GreedyBytes)))", "Struct('h'/Byte, 'f'/FixedSized(2, RawCopy(Byte)))", "Struct('h'/Byte, 'n'/NullTerminated(Struct('t'/Tell, 'g'/GreedyBytes)))",
     "Enum(Byte, a=1)", "FocusedSeq('b', 'a'/Byte, 'b'/Byte)", "Struct('k'/Byte, 'v'/Switch(this.k, {1: Int16ub}, default=Byte))", "Compressed(GreedyBytes, 'zlib')" if False else "Hex(Int16ub)",
 ]
 FAULT_KINDS = ["read", "write", "seek", "tell", "short"]
